@@ -12,5 +12,6 @@ import TantivyModel.Props.C20
 #print axioms TantivyModel.C20.C20_proxy_hash_all
 #print axioms TantivyModel.C20.C20_decimalCodec_good
 #print axioms TantivyModel.C20.C20_single_byte_detected_concrete
+#print axioms TantivyModel.C20.C20_validation_walks_all
 #print axioms TantivyModel.C20.C20_extension_counterexample
 #print axioms TantivyModel.C20.C20_truncation_counterexample
